@@ -796,5 +796,5 @@ PARTS = {"admission": run_admission, "redirects": run_redirects, "redirect_grid"
 def main(ctx):
     ctx.run_replays(PARTS)
     ctx.enumerate(red_grid(), run_redirects, name="redirect_grid", exhaustive=False)
-    ctx.explore(red_case_s, run_redirects, ctx.n(1200, 50000), name="redirects")
-    ctx.explore(adm_case_s, run_admission, ctx.n(800, 20000), name="admission")
+    ctx.explore(red_case_s, run_redirects, ctx.n(1200, 300000), name="redirects")
+    ctx.explore(adm_case_s, run_admission, ctx.n(800, 120000), name="admission")
